@@ -113,3 +113,11 @@ claim("C01",
        "Because atoms are opaque, the statement covers every template, population and value (digit-count and modulo boundaries need no case split). Every obligation must be discharged; none is excepted.",
   note="Trusted base: go/ssa lowering; the transfer functions for bytes.Join/append/len/conversions in checker/an/seq.go; fmt's %03s/%03d padding and strconv.Itoa; the leaf producers' loop-shape summaries (rule S2, checked); assumption A1 (MsgType non-empty) and the property's own precondition that values contain no SOH.",
   design_ref="DESIGN.md §3 C01, §2 E5")
+
+claim("C17",
+  technique="static writer/reader table agreement (layout inference of the serializer vs. the item list offered to the parser), codec-pair table check per value type over go/ssa paths, loop-shape (collector) summaries of the leaf producers, storage-ownership checks of the entry accessors",
+  text="Structural conditions for 'exactly the populated fields reach the wire, once, in template order': the serializer emits the same ordered parts Items() lists; constructors and setters mark values populated and ToBytes is the tabled canonical text (nil when null); "
+       "every leaf producer iterates its own slice in index order, skips exactly the elements without bytes, joins with SOH and modifies nothing; a KeyValue emits its own key once; a group emits its count first; accessors hand out the message's own storage. "
+       "One recorded finding: the trailer is listed but never emitted (cannot be repaired without failing a pinned test). Not decided: canonical text beyond the codec table.",
+  note="Trusted: go/ssa; the layout model (seq.go); the frozen codec table (strconv/time inverse pairs).",
+  design_ref="DESIGN.md §3 C17, §2 E5/E8")
